@@ -50,7 +50,7 @@ Section Views.
     nth_error descs v = Some (BViewInt h p zs) ->
     length zs = length (fshape (bhead_at descs p)) ->
     length idx = bninf (bhead_at descs p) ->
-    norm_all (fshape (bhead_at descs p)) (map IInt zs) = IErr EIndex ->
+    norm_all false (fshape (bhead_at descs p)) (map IInt zs) = IErr EIndex ->
     bs_eval xdefault descs v g idx w = (Raise IndexError, w).
   Proof.
     intros D L1 L2 N. unfold bs_eval. rewrite D. unfold bs_getitem_full.
@@ -72,12 +72,12 @@ Section Views.
     assert (length (fshape hd ++ map (fun n => n + 1) idx) = length (map IInt zs ++ oz)) as ->.
     { rewrite !app_length, !map_length, Loz. lia. }
     rewrite Nat.ltb_irrefl, Nat.sub_diag. cbn [repeat]. rewrite app_nil_r.
-    assert (forall sh it ext more, length it = length sh -> norm_all sh it = IErr EIndex ->
-                                   norm_all (sh ++ ext) (it ++ more) = IErr EIndex) as H.
-    { clear. induction sh as [|d sh IH]; intros [|i it] ext more L E; try discriminate.
-      cbn in *. destruct (norm_ix d i); auto.
-      destruct (norm_all sh it) eqn:E2; [discriminate|]. inversion E; subst.
-      rewrite (IH it ext more); auto. }
-    rewrite H; auto. now rewrite map_length.
+    assert (forall sh zs0 ext more, length zs0 = length sh -> norm_all false sh (map IInt zs0) = IErr EIndex ->
+                                    basic_error (sh ++ ext) (map IInt zs0 ++ more) = Some EIndex) as H.
+    { clear. induction sh as [|d sh IH]; intros [|z zs0] ext more L E; try discriminate.
+      cbn in *. destruct (norm_int d z) eqn:N; cbn in *; auto.
+      destruct (norm_all false sh (map IInt zs0)) eqn:E2; [discriminate|]. inversion E; subst.
+      apply IH; auto. }
+    rewrite H; auto.
   Qed.
 End Views.
